@@ -36,9 +36,9 @@ CHECKS = {
     "C15": ("P progcheck, two stages", "exhaustive enumeration of single ill-formedness mutations at every position x four macros; the real macro implementation runs inside rustc (hook), rustc judges what the macro accepts",
             "From 30 (quick) well-formed base programs: undeclared relation and arity +-1 at every atom (heads, bodies, aggregates, negations, bodies of invoked macros); aggregate / negation of a relation in its own stratum directly, via a second rule, via a multi-head rule; rebinding a bound variable by let / if-let / generator / ?pattern / aggregate pattern after every body item; self- and mutually-recursive macros in body, head and disjunction position; include_source! inside ascent_source!; ds attribute on a lattice, two ds attributes; unknown inner / relation attributes; inter_rule_parallelism on serial macros. Every variant must be rejected by the macro (no panic) or by rustc with an error located at the program.",
             "mutations are applied to the printed program text; hook verif_expand_status!", "6 C15"),
-    "C10": ("P progcheck", "bounded-exhaustive insertion histories x access patterns on compiled programs with the real eqrel provider vs the explicit equivalence closure", 'Programs with a clocked feeder (the input relation sched(i,[k,]a,b) is the insertion history: which pair arrives in which iteration of the recursive stratum, keys that pause and resume), an at-once feeder, a feeder split over two strata and a self-feeding rule; one reader per access pattern (every subset of bound columns, constants, repeated variable, relation first / second in a simple join, self join) placed in a later stratum and inside the recursive stratum; binary and ternary form; all schedules with <= 4 (ternary: 3) facts over pairs {0,1,2}^2, times 0..2 (ternary: 2 keys), plus 'deep4' programs without element constants run on all schedules with <= 4 facts over 4 elements, one representative per renaming of the elements; every reader relation compared with the explicit reflexive-symmetric-transitive closure computed by the naive evaluator; programs that do not compile are reported.', "serial macros only in this entry (parallel binary eqrel: vsched); results observed through reader relations", "6 C10-C12"),
-    "C11": ("P progcheck", "bounded-exhaustive insertion histories x access patterns on compiled programs with the real trrel provider vs the explicit transitive closure", 'Programs with a clocked feeder (the input relation sched(i,[k,]a,b) is the insertion history: which pair arrives in which iteration of the recursive stratum, keys that pause and resume), an at-once feeder, a feeder split over two strata and a self-feeding rule; one reader per access pattern (every subset of bound columns, constants, repeated variable, relation first / second in a simple join, self join) placed in a later stratum and inside the recursive stratum; binary and ternary form; all schedules with <= 4 (ternary: 3) facts over pairs {0,1,2}^2, times 0..2 (ternary: 2 keys), plus 'deep4' programs without element constants run on all schedules with <= 4 facts over 4 elements, one representative per renaming of the elements; every reader relation compared with the explicit transitive closure computed by the naive evaluator; programs that do not compile are reported.', "results observed through reader relations", "6 C10-C12"),
-    "C12": ("P progcheck", "bounded-exhaustive insertion histories x access patterns on compiled programs with the real trrel_uf provider vs the explicit reflexive-transitive closure", 'Programs with a clocked feeder (the input relation sched(i,[k,]a,b) is the insertion history: which pair arrives in which iteration of the recursive stratum, keys that pause and resume), an at-once feeder, a feeder split over two strata and a self-feeding rule; one reader per access pattern (every subset of bound columns, constants, repeated variable, relation first / second in a simple join, self join) placed in a later stratum and inside the recursive stratum; binary and ternary form; all schedules with <= 4 (ternary: 3) facts over pairs {0,1,2}^2, times 0..2 (ternary: 2 keys), plus 'deep4' programs without element constants run on all schedules with <= 4 facts over 4 elements, one representative per renaming of the elements; every reader relation compared with the explicit reflexive-transitive closure computed by the naive evaluator; programs that do not compile are reported.', "results observed through reader relations", "6 C10-C12"),
+    "C10": ("P progcheck", "bounded-exhaustive insertion histories x access patterns on compiled programs with the real eqrel provider vs the explicit equivalence closure", 'Programs with a clocked feeder (the input relation sched(i,[k,]a,b) is the insertion history: which pair arrives in which iteration of the recursive stratum, keys that pause and resume), an at-once feeder, a feeder split over two strata and a self-feeding rule; one reader per access pattern (every subset of bound columns, constants, repeated variable, relation first / second in a simple join, self join) placed in a later stratum and inside the recursive stratum; binary and ternary form; all schedules with <= 4 (ternary: 3) facts over pairs {0,1,2}^2, times 0..2 (ternary: 2 keys), plus deep4 programs without element constants run on all schedules with <= 4 facts over 4 elements, one representative per renaming of the elements; every reader relation compared with the explicit reflexive-symmetric-transitive closure computed by the naive evaluator; programs that do not compile are reported.', "serial macros only in this entry (parallel binary eqrel: vsched); results observed through reader relations", "6 C10-C12"),
+    "C11": ("P progcheck", "bounded-exhaustive insertion histories x access patterns on compiled programs with the real trrel provider vs the explicit transitive closure", 'Programs with a clocked feeder (the input relation sched(i,[k,]a,b) is the insertion history: which pair arrives in which iteration of the recursive stratum, keys that pause and resume), an at-once feeder, a feeder split over two strata and a self-feeding rule; one reader per access pattern (every subset of bound columns, constants, repeated variable, relation first / second in a simple join, self join) placed in a later stratum and inside the recursive stratum; binary and ternary form; all schedules with <= 4 (ternary: 3) facts over pairs {0,1,2}^2, times 0..2 (ternary: 2 keys), plus deep4 programs without element constants run on all schedules with <= 4 facts over 4 elements, one representative per renaming of the elements; every reader relation compared with the explicit transitive closure computed by the naive evaluator; programs that do not compile are reported.', "results observed through reader relations", "6 C10-C12"),
+    "C12": ("P progcheck", "bounded-exhaustive insertion histories x access patterns on compiled programs with the real trrel_uf provider vs the explicit reflexive-transitive closure", 'Programs with a clocked feeder (the input relation sched(i,[k,]a,b) is the insertion history: which pair arrives in which iteration of the recursive stratum, keys that pause and resume), an at-once feeder, a feeder split over two strata and a self-feeding rule; one reader per access pattern (every subset of bound columns, constants, repeated variable, relation first / second in a simple join, self join) placed in a later stratum and inside the recursive stratum; binary and ternary form; all schedules with <= 4 (ternary: 3) facts over pairs {0,1,2}^2, times 0..2 (ternary: 2 keys), plus deep4 programs without element constants run on all schedules with <= 4 facts over 4 elements, one representative per renaming of the elements; every reader relation compared with the explicit reflexive-transitive closure computed by the naive evaluator; programs that do not compile are reported.', "results observed through reader relations", "6 C10-C12"),
     "C14": ("P progcheck + virtual clock", "fault enumeration: run_timeout(t) for every t in 0..=M+1 virtual clock readings, i.e. every position at which the deadline can strike; single, repeated and double interruptions; resume with run()",
             "Programs from F-scc, F-lat, F-agg and the binary BYODS programs of F-ds (relation computed in one stratum, read in a later / the same one) compiled with #![generate_run_timeout]; hook H-A2 makes ascent::internal::Instant a per-thread tick counter (1 ns per reading) so that scanning t hits every deadline check; after a false return every tuple must be in the model and every lattice value below the final one, after true the state equals the fixed point, after the resuming run() it equals the fixed point of an uninterrupted run.",
             "serial macro; hook verif-hooks (virtual Instant)", "6 C14"),
